@@ -379,10 +379,14 @@ ELL = "..."
 def tokenize(sub):
     """subscripts of one operand as a list of labels (letters) and ELL; None when torch rejects the string itself
     (a '.' that is not part of '...', a character that is not a letter)"""
-    sub = sub.replace(" ", "")
+    # torch skips blanks BETWEEN tokens only: the three dots of an ellipsis must be adjacent (". . .j,j" is rejected: "found '.'
+    # ... that is not part of any ellipsis"), a tab is an invalid subscript (final pass, audit item C15-6: the blanks used to be
+    # removed first, so model and oracle accepted such strings)
     toks, i = [], 0
     while i < len(sub):
-        if sub[i] == ".":
+        if sub[i] == " ":
+            i += 1
+        elif sub[i] == ".":
             if sub[i:i + 3] != "...":
                 return None
             toks.append(ELL)
@@ -1199,7 +1203,13 @@ def one_case(ctx, case):
         elif nrm is not None and len(mvals) == len(nrm) == len(ivals):
             # relative to the magnitude of each entry, not to the largest entry of the tensor
             ni, nm_ = normalised(ivals, nrm, floor_of(case)), normalised(mvals, nrm, floor_of(case))
-            bad = [k for k in range(len(ni)) if not close(ni[k], nm_[k])]
+            # a Float model value that overflowed (inf / nan) where the implementation returns a finite number carries no verdict
+            # (the rule of Ctx.point, DESIGN 13.8: the theorems are about reals; a rewrite MORE stable than the modelled algorithm
+            # must not alarm - the independent exact-rational / numpy oracle below decides those entries)
+            skip = {k for k in range(len(ni)) if not math.isfinite(mvals[k]) and math.isfinite(ivals[k])}
+            if skip:
+                ctx.count("model_nonfinite_skipped(vpoint)")
+            bad = [k for k in range(len(ni)) if k not in skip and not close(ni[k], nm_[k])]
             if not bad:
                 ctx.point(name, "property", ni, nm_, case, scale=1.0, theorem=th, sig=sg)
             else:
@@ -1945,6 +1955,80 @@ def gen_edge(ctx, n_scale):
         yield {"fn": "sigmoid", "num": num, "x": T(s, xs), "y": T(t, [im_val() for _ in range(numel(t))]), "regime": "edge_underflow"}
 
 
+POW2_UNITS = [(1, 0), (-1, 0), (0, 1), (0, -1), (2, 0), (0, -2), (1, 1), (1, -1), (-1, 1), (-1, -1), (2, 2), (-2, 2), (4, 0), (0, 4),
+              (0.5, 0), (0, -0.5), (0.5, 0.5), (0.25, -0.25)]   # |z|^2 a power of two: 1/z and i/z are exact in float32
+
+
+def pow2_cplx(rng, tshape, dtype="f64"):
+    n = numel(tshape)
+    zs = [rng.choice(POW2_UNITS) for _ in range(n)]
+    return T([2] + list(tshape), [float(z[0]) for z in zs] + [float(z[1]) for z in zs], dtype)
+
+
+def gen_const(ctx, n_scale):
+    """the library's own float32 constant `cplx.I` (a quantifier item) as an operand of EVERY function that takes a complex scalar
+    (final pass, audit item C15-3): einsum (either side, scalar subscripts / ellipsis), inner_prod on the left, the unary functions,
+    scalar_divide on both sides, elementwise_division on both sides.  Values and - through `I_intact` - that the constant is never
+    written.  Where the result is float32 (x = cplx.I: `y.to(x)`) the partner's entries have |z|^2 a power of two, so that every
+    intermediate and the quotient are exact in float32 and the usual tolerances apply."""
+    rng = ctx.rng
+    R = lambda k: range(max(1, int(k * n_scale)))  # noqa: E731
+    num = "int"
+    for _ in R(70):
+        side = rng.choice(["x", "y"])
+        if side == "x":
+            eq, k = rng.choice([(",a->a", 1), (",ab->ba", 2), (",->", 0), (",a", 1), (",ab", 2), ("...,...", None), (",...->...", None),
+                                (",aa->a", "sq"), (",a->", 1)])
+        else:
+            eq, k = rng.choice([("a,->a", 1), ("ab,->ab", 2), (",->", 0), ("a,", 1), ("ba,", 2), ("...,...", None), ("...,->...", None),
+                                ("ab,->b", 2), ("a...,->...a", "ge1")])
+        if k is None:
+            s = rand_shape(rng)
+        elif k == "sq":
+            d = rng.choice(DIMS)
+            s = [d, d]
+        elif k == "ge1":
+            s = rand_shape(rng, rank=rng.randint(1, 3))
+        else:
+            s = [rng.choice(DIMS) for _ in range(k)]
+        z = rand_cplx(rng, s, num)
+        rp, ip = rng.choice([(True, True), (True, True), (True, False), (False, True), (False, False)])
+        ctx.count(f"cplx.I_operand=einsum[{side}]")
+        yield {"fn": "einsum", "num": num, "eq": eq, "x": dict(I_T) if side == "x" else z, "y": z if side == "x" else dict(I_T),
+               "useI": side, "rp": rp, "ip": ip}
+    for _ in R(60):
+        fn = rng.choice(["conj", "conjugate", "norm_sqr", "real", "imag", "numpy", "inner_prod", "scalar_mult", "elementwise_mult"])
+        ctx.count(f"cplx.I_operand={fn}")
+        if fn == "inner_prod":
+            yield {"fn": fn, "num": num, "x": dict(I_T), "y": rand_cplx(rng, [], num), "useI": "x"}
+        elif fn in ("scalar_mult", "elementwise_mult"):
+            # the constant as BOTH operands (the same object twice)
+            c = {"fn": fn, "num": num, "x": dict(I_T), "y": dict(I_T), "same": True, "useI": "x"}
+            if fn == "scalar_mult":
+                c["out"] = rng.choice([None, "fresh", "fresh32"])
+            yield c
+        else:
+            yield {"fn": fn, "num": num, "x": dict(I_T), "useI": "x"}
+    num = "float"
+    for _ in R(70):
+        fn = rng.choice(["scalar_divide", "scalar_divide", "elementwise_division", "inverse", "absolute_value", "norm"])
+        side = rng.choice(["x", "y"])
+        ctx.count(f"cplx.I_operand={fn}" + (f"[{side}]" if fn in ("scalar_divide", "elementwise_division") else ""))
+        if fn in ("inverse", "absolute_value", "norm"):
+            yield {"fn": fn, "num": num, "x": dict(I_T), "useI": "x"}
+        elif fn == "scalar_divide":
+            s = rand_shape(rng)
+            if side == "y":
+                yield {"fn": fn, "num": num, "x": rand_cplx(rng, s, num, rng.choice([0.1, 1.0, 10.0])), "y": dict(I_T), "useI": "y"}
+            else:
+                yield {"fn": fn, "num": num, "x": dict(I_T), "y": pow2_cplx(rng, s), "useI": "x"}
+        else:
+            if side == "y":
+                yield {"fn": fn, "num": num, "x": rand_cplx(rng, [], num), "y": dict(I_T), "useI": "y"}
+            else:
+                yield {"fn": fn, "num": num, "x": dict(I_T), "y": pow2_cplx(rng, []), "useI": "x"}
+
+
 def gen_alias(ctx, n_scale):
     """out= buffers that are DIFFERENT objects sharing storage with an operand (x[...], view_as, detach, .data, an overlapping
     window of the same 1-D storage): accepted, and the returned value is the product of the operands as they were (fix 96aa40c)"""
@@ -2173,6 +2257,8 @@ def gen_malformed(ctx, n_scale):
             ("...i,i->......", [2, 2], [2]), ("ij,jk", [2, 2, 2], [2, 2]), ("ij,jk", [2], [2, 2]), ("i,i,i", [2], [2]),
             ("ij", [2, 2], [2, 2]), ("i1,1", [2, 3], [3]), ("ij,jk->ik->", [2, 2], [2, 2]), ("ii,i", [2, 3], [2]),
             ("...ii,i", [2, 2, 3], [2]), ("a...,a->...b", [2, 2], [2]), ("a...,a...->aa", [2, 2], [2, 2]), ("i,j->...ij...", [2], [2]),
+            # blanks inside an ellipsis / inside the arrow, a tab: the string itself is rejected
+            (". . .j,j", [2, 2], [2]), (".. .j,j", [2, 2], [2]), ("ij,j->. ..", [2, 2], [2]), ("ij,j - > i", [2, 2], [2]), ("ij ,\tj", [2, 2], [2]),
         ])
         yield {"fn": "einsum", "num": num, "eq": eq, "x": rand_cplx(rng, sa, num), "y": rand_cplx(rng, sb, num),
                "rp": rng.random() < 0.85, "ip": rng.random() < 0.85}
@@ -2190,7 +2276,7 @@ def gen_malformed(ctx, n_scale):
 
 
 def gen_all(ctx, n_scale):
-    for gen in (gen_exact, gen_alias, gen_tolerance, gen_ranges, gen_extreme, gen_edge, gen_malformed):
+    for gen in (gen_exact, gen_const, gen_alias, gen_tolerance, gen_ranges, gen_extreme, gen_edge, gen_malformed):
         for case in gen(ctx, n_scale):
             yield decorate(ctx, case)
 
